@@ -10,6 +10,7 @@ and `_free_name` against their Lean models.
 """
 from __future__ import annotations
 
+import atexit
 import inspect
 import itertools
 import json
@@ -28,6 +29,9 @@ from .c08 import _val, close, lean_val
 
 PROPS = ["MxlVerif.Props.C17"]
 SCRATCH = WORK / "c17"
+# IPython (pulled in by a dependency) keeps a history database in $IPYTHONDIR: parallel checks must not share it
+os.environ.setdefault("IPYTHONDIR", str(WORK / f"ipython-{os.getpid()}"))
+atexit.register(shutil.rmtree, WORK / f"ipython-{os.getpid()}", ignore_errors=True)  # runs after IPython's own hook
 
 KEYWORD_IDS = ["lambda", "in", "is", "def", "pass", "class", "from", "global", "not", "or"]
 PLAIN_S = ["S1", "S2", "A", "atp", "ATP", "glc_c", "_s", "X__1"]
